@@ -89,3 +89,13 @@ claim('C14',
       'wire-signature comparison of the header writer and reader with the format, parity shape rule on the LongAtoms mask, type fact on the cache key, provenance of reference resolution and of the cache argument, CAST',
       'Decided from MIR: every path of the header encoder starts 131, 68, count and both sides use n/2+1 flag bytes and the same entry layout; the LongAtoms mask on both sides is 0x01/0x10 selected by the parity of the reference count; atom count and atom lengths written are guarded; every decode_with_atom_cache call is fed the connection\'s own cache. Reported as known findings: the persistent cache is keyed by u8 (segment ignored), ATOM_CACHE_REF is resolved by internal index instead of header position, and the fragment-header consumer uses the reference count as a byte length. Not decided: sequences of headers from a sender model.',
       NOTE, 'DESIGN.md §4 C14')
+
+claim('C06',
+      'PANIC family over the receive-path glue, CFG rule on the tick edge, constant agreement of wire-form markers, provenance of per-connection state, error-discipline rule (no read after a decode error)',
+      'Decided from MIR: no indexing/slicing/arithmetic site in receive_message, receive_message_from_read_half and decode_complete_fragment can panic on a peer-supplied frame (the decoder, control parser and assembler are covered by C02, C08, C09); in both receive loops a zero-length frame leads back to the next read and never to a return; the markers 131/68/69/70/112 agree across connection.rs, fragmentation.rs, erltf::tags and the format and each wire form has a branch; fragments go to the connection\'s own assembler and headers to its own atom cache (C14.5); decoders operate on the bytes of a fully read frame and their error edges return without reading again, so a bad frame cannot desynchronise framing. Not decided: exactly-once/in-order delivery as a history property; fragmented delivery end to end (depends on the C09 and C14 known findings).',
+      NOTE, 'DESIGN.md §4 C06')
+
+claim('C07',
+      'dominance of the connected-state gate, who-may-call on the private writer, operation->message table with parameter provenance vs spec/control_messages.json, wire-signature of the frame writer per mode with symbolic length sums, type facts and guard-flow for exclusive writing',
+      'Decided from MIR: all seven public operations that can write are gated by the connected-state test; send_control_message and write_half_mut are only called inside Connection; each operation builds exactly the control message (variant, protocol tag, parameter->field mapping, payload presence) the protocol assigns to it; send_control_message writes exactly one frame on each success path - pass-through u32(1+len(control)[+len(payload)]) 112 control [payload], or u32(len(E)) E with E from encode_with_dist_header(_multi) - and picks the mode from the negotiated DIST_HDR_ATOM_CACHE flag; the write half is reachable only through &mut Connection, connections are shared as Arc<tokio::sync::Mutex<Connection>> with no bypass, and every Node operation awaits the send while holding the guard, so frames cannot interleave (per-caller order rests on the mutex\'s FIFO fairness, trusted). Not decided: conformance as read by an independent implementation beyond the layout table; scheduling.',
+      NOTE, 'DESIGN.md §4 C07')
